@@ -147,6 +147,38 @@ CLAIMED.update({
         technique="Lean 4 multiset/permutation proofs over Q + differential correspondence against an exact enumeration"),
 })
 
+CLAIMED.update({
+    "C03": dict(
+        text=("Model of the BRAIN pipeline exactly as written (Vieta normalisation, Newton-identity recurrences in both "
+              "directions, per-element constants, padding/update, probability and centre-mass vectors, cut, sort) over "
+              "exact rationals, and an independent specification of the aggregated isotope distribution by polynomial "
+              "multiplication; theorems in Props/C03.lean.  Correspondence: X1 for every element of the table, pairs over "
+              "a count grid, random compositions, against the exact oracle (m/z to 1e-6, ratios to 1e-9) and the model.  "
+              "The recorded defect D5 (isotope ladders with gaps or isotopes lighter than the most abundant one) is "
+              "reproduced by the model and listed per element in known_findings.json."),
+        design_ref="§7.3",
+        note=NOTE_COMMON + " Partial (floating point): theorems are over Q; f64 error is bounded only on the generated compositions, at the property's tolerances. exp(sum ln) idealised as a product (common scale factor).",
+        technique="Lean 4 model + polynomial/power-series proofs over Q + differential correspondence against an exact oracle"),
+    "C08": dict(
+        text=("Model of the generator's cache of per-element constants (checkout / receive / populate_from_cache / update) "
+              "next to the stateless path; purity theorems in Props/C08.lean.  Correspondence: ALL histories up to length "
+              "3 (quick) / 4 (thorough) over a pool of requests sharing elements, random histories up to 200 calls, each "
+              "call compared with the stateless function (1e-12) and, sampled, with the exact model; 16 threads with own "
+              "generators and stateless calls against single-threaded results; structural scan for shared mutable state."),
+        design_ref="§7.8",
+        note=NOTE_COMMON + " Partial (concurrency): not a theorem about thread schedules; rests on the purity theorem, Rust's &mut exclusivity (trusted), the structural scan and the 16-thread observation.",
+        technique="Lean 4 cache-invariant proof over call histories + exhaustive short-history differential correspondence"),
+    "C09": dict(
+        text=("Model of NumPeaksSpec resolution (both conversions, saturating arithmetic, update_order), max_variants, the "
+              "1e-10 cut loop and the sort; shape theorems in Props/C09.lean.  Correspondence: every integer request in "
+              "-3..320, i32 extremes, usize/Option forms and fractions on ten compositions plus the C03 cases; "
+              "non-emptiness, strictly increasing m/z within [lightest, heaviest], normalisation over the requested "
+              "range, coverage of every variant with share >= 2e-10 judged against the exact distribution."),
+        design_ref="§7.9",
+        note=NOTE_COMMON + " Partial: strict increase of centre masses is observed against the exact oracle, not proved; f64 not modelled. D5 findings as for C03.",
+        technique="Lean 4 proofs about request resolution, cut and sort + differential correspondence against an exact oracle"),
+})
+
 PENDING_REASON = "check not built yet in this session; no claim is made until its model, theorems and correspondence run exist"
 
 
